@@ -351,6 +351,7 @@ void c09_check_counts(int slot, const char *after) {
 }
 // returns nothing; raises on mismatch. present_before is decided by the model.
 extern int g_src_unpollable_pid;
+extern bool g_src_unpollable_fd;
 void c09_register(int slot, int type, long k1, long k2, bool params_valid, int rc, bool update_in_place_ok, const std::string &snap0) {
     if (!on("C09")) return;
     Slot &s = W->slots[slot];
@@ -375,7 +376,7 @@ void c09_register(int slot, int type, long k1, long k2, bool params_valid, int r
             VIOL("C09", sig, "registering a %s source whose key is already present returned %d instead of -EEXIST", TN[type], rc);
         }
     } else {
-        if (rc != 0 && type == M_SRC_TYPE_PID && g_src_unpollable_pid >= 0 && R->k.reaped_pids.count(g_src_unpollable_pid)) {
+        if (rc != 0 && ((type == M_SRC_TYPE_PID && g_src_unpollable_pid >= 0 && R->k.reaped_pids.count(g_src_unpollable_pid)) || (type == M_SRC_TYPE_FD && g_src_unpollable_fd && rc != -EEXIST))) {
             // the key is fine but the object behind it cannot be polled (a process that is gone): refused - without a trace
             if (snap0 != snapshot()) { snprintf(sig, sizeof sig, "C09:refused-registration-left-trace:%s", TN[type]); VIOL("C09", sig, "a registration refused with %d changed the observable state", rc); }
             c09_check_counts(slot, "refused register");
